@@ -254,6 +254,9 @@ def new_socket_connection(
         source_address: Optional[HostPort] = None,
 ) -> socket.socket:
     conn = None
+    if addr[0].startswith('[') and addr[0].endswith(']'):
+        # IPv6 literals are bracketed within URLs but not for the socket layer
+        addr = (addr[0][1:-1], addr[1])
     try:
         ip = ipaddress.ip_address(addr[0])
         if ip.version == 4:
